@@ -6,6 +6,8 @@
  * Concrete operation list OPS (message values symbolic and pairwise distinct):
  *   1 try_put(v)      2 / 3 run the oldest / newest spawned task     10+s successor s pulls with try_get     20+s successor s pulls with try_reserve
  *   30 the reserving successor releases   31 ... consumes            40+s successor s is removed by remove_successor (from push mode)
+ *   60 recovery: graph cancelled, wait_for_all (pending tasks get cancel()), the real graph::reset() (default flags): buffer, reservation and forwarder flag must be
+ *      initial again (buffered messages are discarded by design), successors holding the edge in pull mode give it back (their own reset); then reuse
  *   50+s successor s (removed or, with NSUCC < 3, never registered) is registered, possibly while messages are buffered
  * Oracle: nothing is pushed along an edge that is in pull mode or removed; broadcast_node: every put is offered exactly once to every
  * push-mode successor, in registration order, and to nobody else; queue_node: every delivery (accepted offer, successful try_get,
@@ -36,7 +38,7 @@ static unsigned frontseq;                         /* sequence number of the curr
 static unsigned offered_front[3];                 /* frontseq+1 if successor s has been offered the current front since it became front / s registered */
 static unsigned stale;                            /* the front changed through a pull (which does not trigger forwarding) */
 static int in_put, cur_val; static unsigned put_off[3], put_pos;
-static unsigned ncomplete, nflip_total, npull_total;   /* vacuity guards over all runs of the query */
+static unsigned ncomplete, nflip_total, npull_total, cancelled, ndropped;   /* vacuity guards over all runs of the query */
 static unsigned last_rejected;                    /* successor whose offer was just rejected (register_predecessor must follow for it) + 1 */
 
 static void order_remove(unsigned s) { unsigned j = 0; for (unsigned i = 0; i < 3; i++) if (i < norder && order[i] != s) order[j++] = order[i]; norder = j; }
@@ -80,7 +82,7 @@ u32 vp_sink_regpred(u32 id) {
 static void run_one(int newest) {
   if (!bag_n) return;
   void* t = bag_take(newest);
-  u8* b = vp_run_task((struct S_class_tbb__detail__d1__task*)t, 0);
+  u8* b = vp_run_task((struct S_class_tbb__detail__d1__task*)t, cancelled);
   if (b) { VP_ASSERT(bag_n < BAGMAX, "VP bound: bag"); bag[bag_n++] = b; }
 }
 static void give_back(unsigned s) { vp_add_succ(s); mode[s] = M_PUSH; order[norder++] = s; offered_front[s] = 0; stale = 0; }
@@ -105,7 +107,7 @@ static void quiescent(void) {   /* no task pending */
 #define MINFLIP 1
 #endif
 static void run(unsigned accpat, unsigned flippat) {
-  fg_reset(); n = 0; nput = ndelivered = noffer = 0; acc_bits = accpat; flip_bits = flippat; reserved = 0; frontseq = 0; stale = 0; in_put = 0; last_rejected = 0;
+  fg_reset(); n = 0; nput = ndelivered = noffer = 0; cancelled = 0; ndropped = 0; acc_bits = accpat; flip_bits = flippat; reserved = 0; frontseq = 0; stale = 0; in_put = 0; last_rejected = 0;
   norder = 0; for (unsigned s = 0; s < 3; s++) { mode[s] = s < NSUCC ? M_PUSH : M_REMOVED; if (s < NSUCC) order[norder++] = s; offered_front[s] = 0; }
   vp_init(NSUCC); vp_init_extra_succ(NSUCC);
   for (int i = 0; i < BAGRUNS; i++) run_one(0);   /* forwarders spawned by the registrations */
@@ -145,6 +147,18 @@ static void run(unsigned accpat, unsigned flippat) {
       VP_ASSERT(r == (n > 0), "queue_node try_reserve: success iff a message is buffered");
 #endif
       if (r) { VP_ASSERT(out == m[0], "reserved message is not the oldest one"); reserved = 1; res_holder = s; res_val = out; } else give_back(s); }
+    else if (op == 60) {
+      cancelled = 1;
+      for (int i = 0; i < BAGRUNS; i++) run_one(0);
+      VP_ASSERT(bag_n == 0 && vp_graph_refs() == 0, "graph wait count not 0 after every pending task was cancelled (wait_for_all would hang)");
+      unsigned ctx0 = n_ctx_reset;
+      vp_graph_reset(0);
+      VP_ASSERT(n_ctx_reset == ctx0 + 1 && vp_graph_active(), "graph::reset did not reset the context once / left the graph inactive");
+      VP_ASSERT(bag_n == 0 && vp_graph_refs() == 0, "reset() spawned a task / touched the wait count");
+      VP_ASSERT(vp_size() == 0 && vp_fwd_busy() == 0 && vp_reserved() == 0 && vp_nsucc() == norder, "reset() left protocol state behind (buffered messages / forwarder_busy / reservation) or dropped an edge");   /* WB */
+      cancelled = 0; ndropped += n; n = 0; reserved = 0; stale = 0;
+      for (unsigned s = 0; s < 3; s++) if (mode[s] == M_PULL) give_back(s);    /* the pulling successors' own reset: predecessor_cache::reset() */
+    }
     else if (op == 30) { if (!reserved) continue; vp_release(); reserved = 0; stale = 0; }
     else if (op == 31) { if (!reserved) continue; vp_consume(); reserved = 0; delivered(res_val); stale = 0; }
     else if (op >= 40 && op < 43) { unsigned s = op - 40; if (mode[s] != M_PUSH) continue; vp_remove_succ(s); mode[s] = M_REMOVED; order_remove(s); }
@@ -158,10 +172,10 @@ static void run(unsigned accpat, unsigned flippat) {
   VP_ASSERT(n_alloc[0] == n_free, "a finished task was not deallocated / deallocated twice");
 #if EK != 0
   if (reserved) { vp_release(); reserved = 0; acc_bits = 0; noffer = 0; for (int i = 0; i < BAGRUNS; i++) run_one(0); }
-  VP_ASSERT(nput == ndelivered + n, "conservation: put != delivered + buffered");
+  VP_ASSERT(nput == ndelivered + n + ndropped, "conservation: put != delivered + buffered (+ discarded by reset)");
   for (unsigned i = 0; i < MAXM; i++) { int out = 0; unsigned r = vp_get((u32*)&out);
     VP_ASSERT(r == (n > 0), "drain: message lost or duplicated"); if (r) delivered(out); }
-  VP_ASSERT(nput == ndelivered, "conservation: every message put is delivered exactly once");
+  VP_ASSERT(nput == ndelivered + ndropped, "conservation: every message put is delivered exactly once");
 #endif
   ncomplete++;
 }
